@@ -298,6 +298,31 @@ func runProbes() probeResults {
 		var a7, b7 []Req
 		ok = ok && noPanic(func() { s7.Validate(&a7); s7.Validate(&b7) })
 		ok = ok && d7[0].Headers["Accept"][0] == "json" && x7 == 7 && len(d7[0].Headers) == 1 && len(b7) == 1 && b7[0].Headers["Accept"][0] == "MUTATED"
+		// nil parts stay nil (a nil inner slice, a nil pointer element, a nil map, a nil interface), and what an
+		// interface-typed field holds is copied like everything else
+		type Box struct {
+			Any any
+			M   map[string]int
+			L   []string
+		}
+		x8 := 8
+		d8 := [][]string{nil, {"x"}}
+		d9 := []*int{nil, &x8}
+		anyInts := []int{1}
+		d10 := []Box{{Any: anyInts}, {}}
+		s8 := z.Slice(z.Slice(z.String())).Default(d8).PostTransform(func(ptr any, ctx z.Ctx) error { (*ptr.(*[][]string))[1][0] = "MUTATED"; return nil })
+		s9 := z.Slice(z.Ptr(z.Int())).Default(d9).PostTransform(func(ptr any, ctx z.Ctx) error { *(*ptr.(*[]*int))[1] = 99; return nil })
+		s10 := z.Slice(z.Struct(z.Schema{"l": z.Slice(z.String())})).Default(d10).PostTransform(func(ptr any, ctx z.Ctx) error {
+			(*ptr.(*[]Box))[0].Any.([]int)[0] = 99
+			return nil
+		})
+		var a8, b8 [][]string
+		var a9, b9 []*int
+		var a10, b10 []Box
+		ok = ok && noPanic(func() { s8.Validate(&a8); s8.Validate(&b8); s9.Validate(&a9); s9.Validate(&b9); s10.Validate(&a10); s10.Validate(&b10) })
+		ok = ok && d8[1][0] == "x" && x8 == 8 && anyInts[0] == 1
+		ok = ok && len(b8) == 2 && b8[0] == nil && b8[1][0] == "MUTATED" && len(b9) == 2 && b9[0] == nil && *b9[1] == 99
+		ok = ok && len(b10) == 2 && b10[0].Any.([]int)[0] == 99 && b10[0].M == nil && b10[1].Any == nil && b10[1].L == nil
 		r.SliceDefaultDeep = r.SliceDefaultDeep && ok
 	}
 	return r
